@@ -11,6 +11,7 @@ import (
 	"strconv"
 	"strings"
 
+	"github.com/bytedance/sonic/encoder"
 	v "github.com/bytedance/sonic/internal/zzverif"
 )
 
@@ -26,6 +27,12 @@ func VerifT3Replay() {
 		return
 	case "gendepth":
 		verifT3GenericDepth()
+		return
+	case "b64":
+		verifT3Base64()
+		return
+	case "encbuf":
+		verifT3EncBuffer()
 		return
 	case "double":
 		text = strconv.FormatFloat(math.Float64frombits(v.Uint64("double")), 'g', 17, 64)
@@ -154,6 +161,78 @@ func verifT3GenericDepth() {
 				var b interface{}
 				e2 := json.Unmarshal([]byte(doc), &b)
 				v.Assert(e2 == nil && reflect.DeepEqual(a, b), fmt.Sprintf("document nested %d deep decoded to a different value than encoding/json's", n))
+			}
+		}
+	}
+}
+
+// verifT3Base64: a base64 text of the model's length (whole quanta "YWJj", then a tail that
+// the decoder accepts for that remainder) decoded into []byte: no panic, the result never has
+// len > cap (a write past the allocation), and accept/value agree with encoding/json.
+func verifT3Base64() {
+	n := int(v.Uint64("b64len"))
+	if n < 0 || n > 1<<16 {
+		return
+	}
+	tails := map[int][]string{0: {""}, 1: {"Y"}, 2: {"YQ", "Y="}, 3: {"YQ=", "YWI"}}
+	for _, tail := range tails[n%4] {
+		text := `"` + strings.Repeat("YWJj", n/4) + tail + `"`
+		var a, b []byte
+		var e1 error
+		func() {
+			defer func() {
+				if r := recover(); r != nil {
+					v.Assert(false, fmt.Sprintf("decoding %s into []byte panicked: %v", text, r))
+				}
+			}()
+			e1 = ConfigStd.UnmarshalFromString(text, &a)
+		}()
+		v.Assert(len(a) <= cap(a), fmt.Sprintf("decoding %s into []byte returned a slice with len %d > cap %d: the base64 decoder wrote past its allocation", text, len(a), cap(a)))
+		e2 := json.Unmarshal([]byte(text), &b)
+		v.Assert((e1 == nil) == (e2 == nil), fmt.Sprintf("sonic and encoding/json disagree on accepting %s into []byte: sonic err=%v, encoding/json err=%v", text, e1, e2))
+		if e1 == nil && e2 == nil {
+			v.Assert(string(a) == string(b), fmt.Sprintf("decoded bytes differ for %s", text))
+		}
+	}
+}
+
+type verifQS struct {
+	A string `json:"a,string"`
+}
+
+// verifT3EncBuffer: encoder.EncodeInto on canary-filled arrays, capacities around the model's
+// and strings whose quoting expands (escapes): nothing may be written past the capacity of the
+// caller's buffer, the result never has len > cap, and the text equals encoding/json's.
+func verifT3EncBuffer() {
+	c0 := int(v.Uint64("cap"))
+	_ = v.Uint64("len")
+	_ = v.Uint64("strlen")
+	strs := []string{"", "a", "a\"b", "\x01", "ab\x01\"", "\"\"\"\"", "abcd"}
+	for _, sv := range strs {
+		var val interface{} = sv
+		if os.Getenv("VERIF_T3_TYPE") == "qstring" {
+			val = verifQS{A: sv}
+		}
+		want, _ := json.Marshal(val)
+		for c := 0; c <= c0+len(want)+8; c++ {
+			for l := 0; l <= c && l <= 2; l++ {
+				arr := make([]byte, c+64)
+				for i := range arr {
+					arr[i] = 0xA5
+				}
+				buf := arr[0:l:c]
+				err := encoder.EncodeInto(&buf, val, 0)
+				v.Assert(err == nil, fmt.Sprintf("EncodeInto(%q) fails: %v", sv, err))
+				v.Assert(len(buf) <= cap(buf), fmt.Sprintf("EncodeInto(%q) with len %d cap %d returns len %d > cap %d", sv, l, c, len(buf), cap(buf)))
+				for i := c; i < len(arr); i++ {
+					if arr[i] != 0xA5 {
+						v.Assert(false, fmt.Sprintf("EncodeInto(%q) with len %d cap %d wrote %q at offset %d, past the capacity of the caller's buffer", sv, l, c, arr[i], i))
+						break
+					}
+				}
+				if err == nil && len(buf) <= cap(buf) && len(buf) >= l {
+					v.Assert(string(buf[l:]) == string(want), fmt.Sprintf("EncodeInto(%q) appended %q, encoding/json gives %q", sv, buf[l:], want))
+				}
 			}
 		}
 	}
